@@ -51,7 +51,7 @@ def sim_text(res, sim):
     return f"ok held={len(sim.held)} occ=[" + ",".join(f"{a}@{fq(p[0])},{fq(p[1])}" for a, p in occ) + "]"
 
 
-def simulate(S, evs, extra_occupied=(), label="", round_trip=False):
+def simulate(S, evs, extra_occupied=(), label="", round_trip=None):
     """choose the compatible occupancy (sites where spots light up are occupied), run the simulator"""
     sites = aodsim.layout_sites(S)
     picks = list(dict.fromkeys(aodsim.dry_run_sites(S, evs)))
@@ -89,8 +89,12 @@ def judge(ctx, move, label, S, method, args, valid, expected_end, sig_extra=None
         if valid:
             ctx.fail(dict(sig, kind="valid-input-rejected", error=extra.split(":")[0]), rep, f"{move} {label}: documented preconditions hold but the call is rejected: {extra[:140]}")
         return None
-    res, before, sim = simulate(S, evs, extra_occupied, label=f"{move} {label}",
-                                round_trip=valid and move in ("single_col_zone.cz_move", "stdlib.moves.default_move_cz"))
+    shape = None
+    if valid and move in ("single_col_zone.cz_move", "stdlib.moves.default_move_cz"):
+        shape = "round-trip"
+    elif valid and move == "two_col_zone.rearrange" or (valid and move == "waypoints.move_by_waypoints" and "pick=True drop=True" in label and not label.startswith("0 waypoints")):
+        shape = "transport"
+    res, before, sim = simulate(S, evs, extra_occupied, label=f"{move} {label}", round_trip=shape)
     if res[0] == "reject":
         ctx.hist(move, "NOT EXECUTABLE " + res[1])
         ctx.fail(dict(sig, kind="not-executable", why=res[1], valid=valid), rep, f"{move} {label}: accepted but not physically executable: {res[2]}")
@@ -300,8 +304,9 @@ def run(ctx):
     chunks = [cases[i:i + 25] for i in range(0, len(cases), 25)]
     bodies = [(f"sim_{k}", "From BS Require Import Core.Show Core.Base Model.Aod.\n"
                "Eval vm_compute in (lines (map (fun c => (show_sim (sim_paths (fst c) (snd c)) ++ \"|\" ++ "
-               "show_bool (round_trip_ok (traps (fst c)) (occ (fst c)) (snd c)))%string) " + clist([c[0] for c in ch]) + ")).") for k, ch in enumerate(chunks)]
-    mism, not_recognised, n_rt = [], [], 0
+               "show_bool (round_trip_ok (traps (fst c)) (occ (fst c)) (snd c)) ++ show_bool (transport_ok (traps (fst c)) (occ (fst c)) (snd c)))%string) "
+               + clist([c[0] for c in ch]) + ")).") for k, ch in enumerate(chunks)]
+    mism, not_recognised, n_rt, n_tr, not_transport = [], [], 0, 0, []
     for ch, (ok, vals, log) in zip(chunks, coqrun.eval_many(ctx.bdir, bodies)):
         if not ok or len(vals) != 1 or len(vals[0]) != len(ch):
             ctx.obligation("coqc simulator file evaluates", False, log[-800:])
@@ -310,14 +315,22 @@ def run(ctx):
             simtxt, _, rt = line.rpartition("|")
             if simtxt != c[1]:
                 mism.append({"model": simtxt[:200], "python_simulator": c[1][:200], "call": c[2]})
-            if c[3]:
+            if c[3] == "round-trip":
                 n_rt += 1
-                if rt != "T":
+                if rt[:1] != "T":
                     not_recognised.append({"call": c[2]})
+            if c[3] == "transport" and c[1].startswith("ok"):
+                n_tr += 1
+                if rt[1:2] != "T":
+                    not_transport.append({"call": c[2]})
     ctx.correspondence("Model.Aod.sim_paths (Coq) = the Python simulator, on the paths the library actually played", len(cases), mism)
     ctx.correspondence("every valid CZ-move call plays paths of the round-trip shape on trap sites (round_trip_ok evaluated in Coq), so theorem "
                        "C08_recognised_call_is_executable_and_returns_every_atom applies to it", n_rt, not_recognised)
     ctx.count("valid CZ-move calls recognised as round trips by the Coq recogniser", n_rt - len(not_recognised))
+    ctx.correspondence("every accepted valid rearrange / pick-and-drop waypoint call plays one path of the transport shape between trap grids with a "
+                       "vacant destination (transport_ok evaluated in Coq), so theorem C08_recognised_transport_is_executable_and_delivers applies",
+                       n_tr, not_transport)
+    ctx.count("valid transport calls recognised by the Coq recogniser", n_tr - len(not_transport))
     ctx.sample({"call": COQ_CASES[0][2], "simulator": COQ_CASES[0][1][:200]} if COQ_CASES else "none")
     ctx.explanation = ("Theorems about the simulator that defines 'physically executable': every accepted sequence of paths conserves the atoms; "
                        "accepted releases are onto vacant trap sites, spots light up on trap sites, jumps while holding and dimension mismatches are "
